@@ -17,22 +17,22 @@ import (
 
 // which properties model code of which package (path relative to the module root, "gozxing" = root package)
 var purityOwners = map[string][]string{
-	"gozxing":             {"C14", "C16", "C17", "C20"},
-	"common":              {"C15", "C19"},
-	"common/reedsolomon":  {"C04", "C05"},
+	"gozxing":             {"C06", "C09", "C12", "C14", "C16", "C17", "C20"},
+	"common":              {"C06", "C15", "C19"},
+	"common/reedsolomon":  {"C04", "C05", "C06"},
 	"common/detector":     {"C06", "C09"},
 	"common/util":         {"C19", "C20"},
-	"qrcode":              {"C01", "C07", "C14"},
-	"qrcode/decoder":      {"C01", "C05", "C15"},
-	"qrcode/encoder":      {"C01", "C07", "C13"},
+	"qrcode":              {"C01", "C06", "C07", "C09", "C12", "C14"},
+	"qrcode/decoder":      {"C01", "C05", "C06", "C15"},
+	"qrcode/encoder":      {"C01", "C07", "C12", "C13"},
 	"qrcode/detector":     {"C06", "C09"},
-	"datamatrix":          {"C02", "C08", "C14"},
-	"datamatrix/decoder":  {"C02", "C05"},
-	"datamatrix/encoder":  {"C02", "C08", "C13"},
+	"datamatrix":          {"C02", "C06", "C08", "C09", "C12", "C14"},
+	"datamatrix/decoder":  {"C02", "C05", "C06"},
+	"datamatrix/encoder":  {"C02", "C08", "C12", "C13"},
 	"datamatrix/detector": {"C06", "C09"},
-	"oned":                {"C03", "C09", "C10", "C20"},
+	"oned":                {"C03", "C06", "C09", "C10", "C12", "C14", "C20"},
 	"oned/rss":            {"C06", "C09"},
-	"aztec":               {"C11"},
+	"aztec":               {"C06", "C09", "C11"},
 	"aztec/decoder":       {"C06", "C11"},
 	"aztec/detector":      {"C06", "C11"},
 	"multi":               {"C06", "C09"},
